@@ -331,6 +331,15 @@ void dispatchArgs(GenState &gs, Node *c) {
     return;
   }
 
+  for (const VReg &r : gs.getSymbols().register_state) {
+    if (r.name == c->tok) {
+      // a repeated name would get no register of its own, so the ARGs of a
+      // call would address registers outside the frame of this program
+      gs.verr(CodegenResult::Error::Type::PARSE_ERROR,
+              "parameter '" + c->tok + "' is declared twice", c->file, c->line);
+      return;
+    }
+  }
   gs.getSymbols().argnum++;
   gs.getSymbols().fetchVariableRegister(std::string(c->tok));
 }
